@@ -7,7 +7,7 @@ import itertools
 
 PROPERTY = "C02"
 LEVEL = "proof"
-LEAN_MODULES = ["Exetera.Props.C02"]
+LEAN_MODULES = ["Exetera.Props.C02", "Exetera.Props.C04"]
 EXHAUSTIVE = {"quick": False, "thorough": True}
 CASE_TIMEOUT = 30
 TECHNIQUE = "Lean 4 theorems (merge = relational join as a corollary of the streamed-join and column-mapping theorems + dispatch model) + API-level differential run of DataFrame.merge with injected chunk sizes"
@@ -19,7 +19,7 @@ LEVEL_NOTE = ("Trusted: Lean kernel; the hand-written merge model (validated aga
               "mode x truthful hints x injected chunk size, whole destination frame compared); pandas.merge, h5py.")
 RULE = ("frames: key column(s) over a 3-value alphabet (sorted when an ordered hint is given, duplicate-free when a unique hint is given), "
         "payload columns of every field type incl. a name clash; exhaustive over key columns of length <= 3 (quick: seeded sample of them) x "
-        "4 modes x truthful hint combinations x chunk sizes {1,2,3,1<<20}; plus seeded random frames up to 40 rows. Non-trivial = at least one "
+        "4 modes x truthful hint combinations x chunk sizes {1,2,3,1<<20} — every such case that takes the ordered path (thorough), a seeded sample of 5000 of those that take the pandas path; plus seeded random frames up to 40 rows; plus a malformed stream (every validation error). Non-trivial = at least one "
         "matched and one unmatched row or a duplicate key; distinct = distinct case dict.")
 ASSUMPTIONS = ["pandas.merge returns the relational join with NaN-marked misses (unordered path)", "h5py stores arrays faithfully"]
 TRUSTED = ["Lean 4.33 kernel", "axioms propext/Classical.choice/Quot.sound only", "checks/harness/c02.py"]
@@ -54,14 +54,33 @@ def hint_combos(lk, rk):
     return out
 
 
-def mk(lk, rk, how, hints, cs, n, compound=False, subset=False, kdtype="int32"):
-    return {"op": "merge", "lk": lk, "rk": rk, "how": how, "hints": hints, "cs": cs, "compound": compound,
-            "subset": subset, "kdtype": kdtype, "_n": n}
+def mk(lk, rk, how, hints, cs, n, compound=False, subset=False, kdtype="int32", mal=None):
+    c = {"op": "merge", "lk": lk, "rk": rk, "how": how, "hints": hints, "cs": cs, "compound": compound,
+         "subset": subset, "kdtype": kdtype, "_n": n}
+    if mal:
+        c["mal"] = mal
+    return c
+
+
+MALFORMED = ["how", "cross", "nokey", "nofield", "idxkey", "tuplemix", "tuplelen", "lenmix"]
+
+
+def malformed_cases():
+    """the error branches of merge(): every validation error, with and without the ordered hints"""
+    out = []
+    n = 900000
+    for mal in MALFORMED:
+        for hints in ([None, None, None, None], [True, None, True, None]):
+            for lk, rk in (([0, 1, 1], [1, 2]), ([], [])):
+                n += 1
+                out.append(mk(lk, rk, "bogus" if mal == "how" else ("cross" if mal == "cross" else "left"), hints, 2, n, mal=mal))
+    return out
 
 
 def gen_cases(tier, rng):
     from checks import corpus
     cases = list(corpus.load("C02"))
+    cases.extend(malformed_cases())
     n = 0
     allc = []
     seqs = all_seqs(3, 3)
@@ -74,15 +93,17 @@ def gen_cases(tier, rng):
                         n += 1
                         allc.append(mk(lk, rk, how, hints, cs, n, compound=(n % 13 == 0), subset=(n % 7 == 0),
                                        kdtype="int32" if n % 3 else "S2"))
+    ordered = [c for c in allc if is_ordered_path(c)]
+    other = [c for c in allc if not is_ordered_path(c)]
     if tier == "quick":
-        ordered = [c for c in allc if c["hints"][0] and c["hints"][2]]
-        other = [c for c in allc if not (c["hints"][0] and c["hints"][2])]
-        cases.extend(rng.sample(ordered, min(len(ordered), 900)))
-        cases.extend(rng.sample(other, min(len(other), 300)))
+        cases.extend(rng.sample(ordered, min(len(ordered), 700)))
+        cases.extend(rng.sample(other, min(len(other), 250)))
     else:
-        cases.extend(allc)
+        # the ordered path (the streamed code the property is about) exhaustively; the pandas path by a seeded sample
+        cases.extend(ordered)
+        cases.extend(rng.sample(other, min(len(other), 5000)))
     # seeded random larger frames
-    for t in range(60 if tier == "quick" else 1500):
+    for t in range(50 if tier == "quick" else 1000):
         ordered = rng.random() < 0.7
         lu, ru = rng.random() < 0.3, rng.random() < 0.3
         lk = rand_keys(rng, rng.randrange(0, 40), ordered, lu)
@@ -157,21 +178,34 @@ def fields_of(case):
 _S = {}
 
 
+RECYCLE_EVERY = 16      # cases per in-memory HDF5 dataset (~7 MB of chunk storage per case is never returned by h5py)
+
+
 def _env():
     if not _S:
-        import io
         import functools
         import numpy as np
         from exetera.core import operations as ops, dataframe, fields
-        from exetera.core.session import Session
-        s = Session()
-        ds = s.open_dataset(io.BytesIO(), "w", "ds")
         orig = {}
         for name in dir(ops):
             if (name.startswith("generate_ordered_map_to_") and name.endswith("_streamed")) or \
                     name in ("ordered_map_valid_stream", "ordered_map_valid_indexed_stream"):
                 orig[name] = getattr(ops, name)
-        _S.update(np=np, ops=ops, dataframe=dataframe, fields=fields, s=s, ds=ds, k=0, orig=orig, functools=functools)
+        _S.update(np=np, ops=ops, dataframe=dataframe, fields=fields, s=None, ds=None, k=0, orig=orig, functools=functools)
+    if _S["s"] is None or _S["k"] % RECYCLE_EVERY == 0:
+        # a fresh Session + BytesIO dataset; the old one is closed and its buffer released (bounded worker memory)
+        import io
+        import gc
+        from exetera.core.session import Session
+        if _S["s"] is not None:
+            try:
+                _S["s"].close()
+            except Exception:
+                pass
+            _S["s"] = _S["ds"] = None
+            gc.collect()
+        s = Session()
+        _S["s"], _S["ds"] = s, s.open_dataset(io.BytesIO(), "w", "ds")
     return _S
 
 
@@ -201,7 +235,8 @@ def build(e, df, side, case):
         elif name == "k2":
             df.create_numeric("k2", "int32").data.write(np.zeros(n, dtype="int32"))
         elif name in ("num", "lonly"):
-            df.create_numeric(name, "int32").data.write(np.array([col_value(side, name, i) for i in range(n)], dtype="int32"))
+            m = n + 1 if (name == "lonly" and case.get("mal") == "lenmix") else n
+            df.create_numeric(name, "int32").data.write(np.array([col_value(side, name, i) for i in range(m)], dtype="int32"))
         elif name in ("s", "ronly"):
             df.create_indexed_string(name).data.write([col_value(side, name, i) for i in range(n)])
         elif name == "f":
@@ -240,6 +275,23 @@ def dump(df):
     return out
 
 
+def mal_args(case, on, lsub):
+    """(left_on, right_on, left_fields) of a case; the malformed stream bends one of them"""
+    mal = case.get("mal")
+    on_l = on_r = on
+    if mal == "nokey":
+        on_l = "zz"
+    elif mal == "idxkey":
+        on_l = "s"
+    elif mal == "tuplemix":
+        on_l = ("k",)
+    elif mal == "tuplelen":
+        on_l, on_r = ("k", "num"), ("k",)
+    elif mal == "nofield":
+        lsub = ["nope"]
+    return on_l, on_r, lsub
+
+
 def impl(case):
     e = _env()
     e["k"] += 1
@@ -251,8 +303,9 @@ def impl(case):
     set_chunks(e, case["cs"])
     h = case["hints"]
     on_l = ("k", "k2") if case.get("compound") else "k"
+    on_l, on_r, lsub = mal_args(case, on_l, lsub)
     try:
-        e["dataframe"].merge(ldf, rdf, ddf, on_l, on_l, left_fields=lsub, right_fields=rsub, how=case["how"],
+        e["dataframe"].merge(ldf, rdf, ddf, on_l, on_r, left_fields=lsub, right_fields=rsub, how=case["how"],
                              hint_left_keys_ordered=h[0], hint_left_keys_unique=h[1],
                              hint_right_keys_ordered=h[2], hint_right_keys_unique=h[3])
     finally:
@@ -328,6 +381,8 @@ def side_val(case, side, name, i):
 
 
 def check_spec(case, io, mode):
+    if case.get("mal"):
+        return None          # the property says nothing about rejected arguments (the correspondence compares the error)
     if "err" in io:
         return f"merge raised {io['err']}: {io.get('msg', '')}"
     cols = io["cols"]
@@ -359,18 +414,131 @@ def match_finding(case, io, mode):
     return None
 
 
+# ---------------------------------------------------------------------------------------------------------------
+# what is sent to the Lean driver: the two frames as data, the key order embedding, and the value of the `pandas.merge`
+# parameter on this input (the unordered path only)
+# ---------------------------------------------------------------------------------------------------------------
+MODEL_CS_CAP = 4096      # frames have <= 40 rows, joins <= 1600 rows: any chunk size above that is one chunk
+
+
+def model_col(case, side, name, n):
+    if name == "k":
+        ks = case["lk"] if side == "l" else case["rk"]
+        if case.get("kdtype") == "S2":
+            return {"e": "", "v": ["%02d" % x for x in ks]}
+        return {"e": 0, "v": list(ks)}
+    if name == "k2":
+        return {"e": 0, "v": [0] * n}
+    if name in ("s", "ronly"):
+        bs = [col_value(side, name, i).encode("utf-8") for i in range(n)]
+        ix = [0]
+        for x in bs:
+            ix.append(ix[-1] + len(x))
+        return {"ix": ix, "vs": [c for x in bs for c in x]}
+    m = n + 1 if (name == "lonly" and case.get("mal") == "lenmix") else n
+    vals = [col_value(side, name, i) for i in range(m)]
+    if name == "f":
+        return {"e": "", "v": [v.decode("latin-1") for v in vals]}
+    if name == "t":
+        return {"e": 0, "v": [int(v) for v in vals]}
+    if name == "flag":
+        return {"e": False, "v": [bool(v) for v in vals]}
+    return {"e": 0, "v": [int(v) for v in vals]}
+
+
+_PD = {}
+
+
+def is_ordered_path(case):
+    h = case["hints"]
+    return bool(h[0] and h[2] and case["how"] in ("left", "right", "inner") and not case.get("compound"))
+
+
+def pandas_pairs(case):
+    """exactly the pandas call of _unordered_merge; returns the (left row | None, right row | None) pairs in pandas' order"""
+    key = (tuple(case["lk"]), tuple(case["rk"]), case["how"], case.get("kdtype"), bool(case.get("compound")))
+    if key in _PD:
+        return _PD[key]
+    import numpy as np
+    import pandas as pd
+    import warnings
+
+    def keycol(ks):
+        if case.get("kdtype") == "S2":
+            return np.array([b"%02d" % x for x in ks], dtype="S2")
+        return np.array(ks, dtype="int32")
+    ld, rd = {"l_k_0": keycol(case["lk"])}, {"r_k_0": keycol(case["rk"])}
+    lkeys, rkeys = ["l_k_0"], ["r_k_0"]
+    if case.get("compound"):
+        ld["l_k_1"] = np.zeros(len(case["lk"]), dtype="int32")
+        rd["r_k_1"] = np.zeros(len(case["rk"]), dtype="int32")
+        lkeys.append("l_k_1")
+        rkeys.append("r_k_1")
+    ld["l_i"] = np.arange(len(case["lk"]), dtype=np.int32)
+    rd["r_i"] = np.arange(len(case["rk"]), dtype=np.int32)
+    with warnings.catch_warnings():
+        warnings.simplefilter("ignore")
+        df = pd.merge(left=pd.DataFrame(ld), right=pd.DataFrame(rd), left_on=tuple(lkeys), right_on=tuple(rkeys),
+                      how=case["how"])
+    out = [[None if pd.isnull(a) else int(a), None if pd.isnull(b) else int(b)] for a, b in zip(df["l_i"], df["r_i"])]
+    # the recorded ASSUMPTION about pandas (hypothesis `hpd` of the C02 theorems), checked on every case it is used for
+    k = lambda p: (-1 if p[0] is None else p[0], -1 if p[1] is None else p[1])  # noqa: E731
+    if sorted(map(k, out)) != sorted(map(k, rel_join(case))):
+        raise AssertionError(f"pandas.merge did not return the relational join on {case}")
+    _PD[key] = out
+    return out
+
+
+def to_model(case):
+    lf, rf, lsub, rsub = fields_of(case)
+    on = ["k", "k2"] if case.get("compound") else ["k"]
+    on_l, on_r, lsub = mal_args(case, tuple(on) if case.get("compound") else "k", lsub)
+
+    def as_list(x):
+        return list(x) if isinstance(x, tuple) else [x]
+    m = {"op": "merge", "how": case["how"],
+         "left": [[name, model_col(case, "l", name, len(case["lk"]))] for name in lf],
+         "right": [[name, model_col(case, "r", name, len(case["rk"]))] for name in rf],
+         "left_on": as_list(on_l), "right_on": as_list(on_r),
+         "left_tuple": isinstance(on_l, tuple), "right_tuple": isinstance(on_r, tuple),
+         "left_fields": lsub, "right_fields": rsub, "hints": case["hints"],
+         "lk": list(case["lk"]), "rk": list(case["rk"]),
+         "cs": min(case["cs"], MODEL_CS_CAP), "vf": 16 if case["cs"] < (1 << 20) else 8, "pairs": None}
+    if not is_ordered_path(case) and case["how"] in HOWS and not case.get("mal"):
+        m["pairs"] = pandas_pairs(case)
+    return m
+
+
+def norm_cell(v):
+    if isinstance(v, bool):
+        return v
+    if isinstance(v, bytes):
+        return v.decode("latin-1")
+    if isinstance(v, float):
+        return int(v) if v == int(v) else v
+    return v
+
+
+def model_vals(col):
+    if "ix" in col:
+        ix, vs = col["ix"], bytes(col["vs"])
+        return [vs[ix[i]:ix[i + 1]].decode("utf-8") for i in range(len(ix) - 1)]
+    return col["v"]
+
+
 def compare(case, io, mo, mode):
+    """the whole destination frame: column names, every value of every column incl. _left_map/_right_map and valid_*"""
     if "bad" in mo:
-        return None      # model op not built yet
+        return f"model driver rejected the case: {mo['bad']}"
     if "err" in io or "err" in mo:
         a, b = io.get("err"), mo.get("err")
-        return None if a == b else f"impl err={a} model err={b}"
-    m = mo["ok"]["cols"]
-    a = {k: v["vals"] for k, v in io["cols"].items()}
+        return None if a == b else f"impl err={a} ({str(io.get('msg', ''))[:80]}) model err={b}"
+    m = {k: model_vals(v) for k, v in mo["ok"]["cols"].items()}
+    a = {k: [norm_cell(x) for x in v["vals"]] for k, v in io["cols"].items()}
     if sorted(a) != sorted(m):
         return f"column sets differ: impl {sorted(a)} model {sorted(m)}"
     for k in a:
-        if [repr(canon_val(k, x)) for x in a[k]] != [repr(x) for x in m[k]]:
+        if a[k] != m[k] or [type(x) for x in a[k]] != [type(x) for x in m[k]]:
             return f"column {k}: impl {a[k][:8]} model {m[k][:8]}"
     return None
 
@@ -388,4 +556,4 @@ def classify(case, mo):
 
 
 def select_for_mode(case, mode, tier):
-    return case.get("_n", 0) % 6 == 0 and len(case["lk"]) + len(case["rk"]) <= 10
+    return case.get("_n", 0) % 12 == 0 and len(case["lk"]) + len(case["rk"]) <= 10
